@@ -58,8 +58,8 @@ def check(ctx, rep):
                     if isinstance(c, ast.Call) and n in c.args:
                         par = c
                 if not (par is not None and isinstance(par.func, ast.Attribute) and par.func.attr == "writedir" and dotted(par.func.value) == "self"
-                        and len(par.args) == 2 and par.args[1] is n and norm(par.args[0]) == "self.entry"):
-                    problems.append("the directory list is consumed outside self.writedir(self.entry, handler.getdirlist())")
+                        and len(par.args) == 2 and par.args[1] is n):
+                    problems.append("the directory list is consumed outside self.writedir(<entry>, handler.getdirlist())")
             if isinstance(n, (ast.For, ast.comprehension)) and "getdirlist" in norm(n.iter):
                 problems.append("handle() iterates the directory list itself")
         rep.add("R06a", f"{h.qualname}: listing only through writedir", not problems, ctx.where(h), "; ".join(sorted(set(problems))),
